@@ -277,6 +277,32 @@ pub fn run(args: &Args) {
                 tr.ev(json!({"ev":"Get","obj":label,"g":gs[g].0,"v":fv(v.iter())}));
             }
         }
+        // (3b) derived states: a state obtained from another one at a different temperature (State::update_temperature) after a random history of
+        // getters on the parent; every getter on the derived state is recorded together with its value on a state built directly at (T2, V, N)
+        let nder = if args.thorough { 40 } else { 6 };
+        for _ in 0..nder {
+            case += 1;
+            tr.ev(json!({"ev":"Begin","case":case,"model":name,"kind":"derived"}));
+            let parent = fresh(base);
+            let nhist = rng.below(6);
+            let mut after: Vec<&str> = vec![];
+            for _ in 0..nhist {
+                let g = rng.below(ng);
+                let _ = (gs[g].1)(&parent);
+                after.push(gs[g].0);
+            }
+            let _ = feos_core::verif::take(); // hook events of these states are not part of the cache trace (their reference values differ)
+            let t2 = parent.temperature * rng.range(0.8, 1.3);
+            let (Ok(child), Ok(direct)) = (parent.update_temperature(t2), State::new_nvt(&parent.eos, t2, parent.volume, &parent.moles)) else { continue };
+            for _ in 0..4 {
+                // getters already evaluated on the parent are the ones a copied cache would answer wrongly
+                let g = if !after.is_empty() && rng.below(2) == 0 { let name = *rng.pick(&after); gs.iter().position(|x| x.0 == name).unwrap() } else { rng.below(ng) };
+                let v = (gs[g].1)(&child);
+                let r = (gs[g].1)(&fresh(&direct));
+                tr.ev(json!({"ev":"DGet","how":"update_temperature","g":gs[g].0,"v":fv(v.iter()),"r":fv(r.iter()),"after":after}));
+            }
+            let _ = feos_core::verif::take();
+        }
         // (4) real threads sharing one state
         let thread_counts: &[usize] = if args.thorough { &[2, 3, 4, 8, 16] } else { &[2, 4, 16] };
         for &nt in thread_counts {
